@@ -45,13 +45,14 @@ MODELLED = ('volume.py: _VolumeBase.geometry_equal, match_geometry (axis alignme
             'source voxel per axis; MINIMUM/MAXIMUM/MEAN/MEDIAN of the label array)')
 STRATA = ['geq', 'geq_for', 'geq_tol', 'match_direct', 'match_chain', 'match_outside', 'match_geomsrc',
           'match_perturbed', 'match_refuse_meta', 'v2v', 'v2v_boundary', 'v2v_outside', 'r2i', 'r2i_boundary',
-          'bad_points', 'match_mode', 'v2v_affine', 'i2r', 'via_phys']
+          'bad_points', 'match_mode', 'v2v_affine', 'i2r', 'via_phys',
+          'match_tiny_spacing']
 RULE = ('source geometries: rational orthonormal directions (48 signed permutations, Pythagorean and quaternion '
         'rotations, optionally mirrored), rational spacings, dyadic/rational positions, shapes 1..5 (..7 thorough), '
         'both coordinate systems, FoR UID present/absent; targets: (a) exact (sigma,k,a,m) per-axis '
         'prefix/suffix/interior/strided/reversed/padded/wholly-outside, (b) composed by the real API chain '
         'permute/flip/getitem/pad, (c) perturbed by sub-voxel shift, non-integer scale, rational rotation (sin = 1 .. 5e-5 '
-        'must refuse, 1e-6 must be accepted), other FoR '
+        'must refuse, 1e-6 must be accepted), target spacing 1e-11 .. 0.49 x source spacing (stride rounds to 0, must refuse), other FoR '
         'UID / coordinate system; geometry_equal pairs with every clause violated once and deltas at 0.5/0.99/1.01/2 x '
         'the allclose threshold; point sets inside, exactly on the +-0.5 faces (dyadic geometries) and outside, '
         'int and float inputs, round_output x check_bounds; malformed point arrays. non-trivial = source with > 1 '
@@ -454,6 +455,28 @@ def _match_refuse_meta(rng, hi):
     return c
 
 
+def _match_tiny_spacing(rng, hi):
+    """target spacing far below the source spacing along an aligned axis: the stride rounds to 0 and must be
+    refused with RuntimeError (fixed defect D104: used to escape as ValueError 'slice step cannot be zero')"""
+    c = _match_direct(rng, hi, modes=['id', 'prefix', 'interior', 'reversed', 'pad_both'], kind='match_tiny_spacing')
+    h = dict(c['h'])
+    d = rng.randrange(3)
+    j = c['spec']['sigma'][d]
+    tolv = F(1, 100000)
+    if rng.random() < 0.3:
+        tolv = rng.choice([F(1, 1000), F(1, 100)])
+        c['tol'] = str(tolv)
+    # ratio below tol (passes the |scale - step| test with step 0), just above tol, and < 1/2 (rounds to 0 but far off)
+    ratio = rng.choice([tolv / 10, tolv / 2, F(99, 100) * tolv, F(1, 10**6) * tolv, 2 * tolv, F(1, 4), F(49, 100)])
+    St = gS(h)
+    St[d] = gS(c['g'])[j] * ratio
+    h['S'] = [str(x) for x in St]
+    c['h'] = h
+    c['pert'] = ['tiny_spacing', str(ratio)]
+    c['expect'] = 'refuse'
+    return c
+
+
 def _geq(rng, hi):
     g = rand_geom(rng, hi, dyadic=rng.random() < 0.3)
     h = json.loads(json.dumps(g))
@@ -672,6 +695,8 @@ def gen_cases(rng, tier):
         cases.append(_match_perturbed(rng, hi))
     for _ in range(n // 2):
         cases.append(_match_refuse_meta(rng, hi))
+    for _ in range(n // 2):
+        cases.append(_match_tiny_spacing(rng, hi))
     for kind, k in (('v2v', 2 * n), ('v2v_boundary', n), ('v2v_outside', n), ('r2i', n), ('r2i_boundary', n // 2)):
         for _ in range(k):
             cases.append(_v2v(rng, hi, kind))
